@@ -244,7 +244,7 @@ def exec_assembly(r):
     prod = out.pop("_product", None)
     after = [snapshot(x) for x in inputs]
     ev = {"ev": "Assemble", "enz": {"site": dna.enc(s), "off": o, "ovh": k},
-          "vrole": classes.role_of(vcls), "generic": "vcls" not in r and "mcls" not in r,
+          "vrole": classes.role_of(vcls), "generic": ("vcls" not in r and "mcls" not in r) or bool(r.get("assume_generic")),
           "vec": proj_in[0], "mods": proj_in[1:], "args": {"id": "assembly" if r.get("id") is None else r["id"], "name": "assembly" if r.get("name") is None else r["name"]},
           "out": out, "fault": r.get("fault") or {"at": 0, "exc": ""},
           "before": before, "after": after,
